@@ -92,32 +92,35 @@ def name_test(fs, b):
     `longs.iter().any(|l| args.take_cmd(l)) || shorts.iter().any(..)` and loops that set a flag on the first take_cmd
     that succeeds."""
     ITERS_ = DEFAULT_THROUGH + [r'slice::<impl \[T\]>::iter$', r'IntoIterator>?::into_iter$']
-    anyc = [c for c in b.calls() if c.is_(r'Iterator>?::any\b')]
-    clo_tk = [x for clo in fs.closures_of(b) for x in clo.calls() if x.is_(r'take_cmd$')]
+    clos = {clo.path for clo in fs.closures_of(b) if any(x.is_(r'take_cmd$') for x in clo.calls())}
+    anyc = [c for c in b.calls() if c.is_(r'Iterator>?::any\b') and len(c.args) > 1 and
+            any(r.kind == 'agg' and r.extra.get('closure') in clos for r in provenance(b, c.args[1], c.bb, 'term', through=None))]
+    n_clo = sum(1 for clo in fs.closures_of(b) for x in clo.calls() if x.is_(r'take_cmd$'))
     own_tk = [c for c in b.calls() if c.is_(r'take_cmd$')]
-    if anyc and clo_tk and not own_tk:
-        sws = [switch_on_call(b, c) for c in anyc]
-        if any(s is None or s.kind != 'bool' for s in sws):
-            raise Broken('ParseCommand::eval: cannot decode the name tests')
+    def tried():
         recv = set()
         for c in anyc:
             for q in provenance(b, c.args[0], c.bb, 'term', through=ITERS_):
                 recv.add('.'.join(q.path))
-        # unmatched region: reachable only through the false edge of the last test
-        return {'matched_entries': [s.target(True) for s in sws], 'unmatched_entry': sws[-1].target(False), 'tried': recv, 'sites': len(clo_tk)}
-    if own_tk and not clo_tk:
-        fr = flag_regions(b, own_tk)
-        if fr is None:
-            raise Broken('ParseCommand::eval: name matching not understood (take_cmd is called in loops but no flag records the first success)')
-        (f, d) = fr
-        recv = set()
         for c in own_tk:
             for n in b.calls():
                 if n.is_(r'Iterator>?::next$') and b.dominates(n.bb, c.bb) and b.reaches(c.bb, [n.bb]):
                     for q in provenance(b, n.args[0], n.bb, 'term', through=ITERS_):
                         if q.kind == 'param' and q.what == 'self':
                             recv.add('.'.join(q.path))
-        return {'matched_entries': [d.target(True)], 'unmatched_entry': d.target(False), 'tried': recv, 'sites': len(own_tk)}
+        return recv
+    if anyc and not own_tk:
+        sws = [switch_on_call(b, c) for c in anyc]
+        if all(s is not None and s.kind == 'bool' for s in sws) and all(not switch_reads_named_local(b, s) for s in sws):
+            # `a.any(..) || b.any(..)`: unmatched region = reachable only through the false edge of the last test
+            return {'matched_entries': [s.target(True) for s in sws], 'unmatched_entry': sws[-1].target(False), 'tried': tried(), 'sites': n_clo}
+    tests = anyc + own_tk
+    if tests:
+        fr = flag_regions(b, tests)
+        if fr is None:
+            raise Broken('ParseCommand::eval: name matching not understood (no flag records the first name that matched)')
+        (f, d) = fr
+        return {'matched_entries': [d.target(True)], 'unmatched_entry': d.target(False), 'tried': tried(), 'sites': n_clo + len(own_tk)}
     raise Broken('ParseCommand::eval: name matching not found')
 
 def first_name_only(ctx, cfg, fs, rule='N.name-first'):
@@ -131,7 +134,7 @@ def first_name_only(ctx, cfg, fs, rule='N.name-first'):
     own = [c for c in b.calls() if c.is_(r'take_cmd$')]
     tests = anyc + own
     why = []
-    fr = flag_regions(b, own, full=True) if own else None
+    fr = flag_regions(b, tests, full=True) if tests else None
     removed = [(s_.b, s_.target(False)) for s_ in fr[2]] if fr else []
     for t in tests:
         if t in anyc and not t.is_(r'Iterator>?::any\b'):
